@@ -19,6 +19,7 @@ def run(rep, tier, seed, budget):
     total = budget or (85 if quick else 1800)
     t_end = time.time() + total
     lemmas.state_lemmas(ctx, rep, equalities=True)
+    lemmas.index_read_lemma(ctx, rep)
 
     def level(N, alpha, keys):
         def path(eng, col):
@@ -62,6 +63,34 @@ def run(rep, tier, seed, budget):
         plan += [("capacity-0 / outside the grammar", A_BAD, ["C", "N", "O", "?"], n) for n in (1, 2, 3, 4, 5)]
         plan += [("fragments, [nop]", A_FRAG, ["C", "N", "?"], n) for n in (1, 2, 3, 4, 5, 6)]
         plan += [("three-symbol indices", A_IDX3, ["C", "N", "O", "?"], n) for n in (4, 5, 6)]
+    # strings that end inside an index: chain of K atoms, a ring/branch symbol asking for L symbols, fewer than L present
+    def tail_path(eng, col):
+        from ..engine import fresh_int
+        from .. import docs
+        table = dict(ctx._presets0["default"])
+        ctx.reset(table)
+        K = 20
+        head = make_tokens("h", 1, ["[Ring2]", "[Ring3]", "[=Ring2]", "[Branch2]", "[Branch3]", "[Ring1]"])[0]
+        m_ = int(fresh_int("m", 0, 2))
+        toks = ["[C]"] * K + [head] + make_tokens("i", m_, docs.DOC_INDEX + ["[F]"])
+        r = dech.run_decoder(ctx, TokStr(toks))
+        d = oderiv.derive(toks, table)
+        pb = None
+        if r[0] != "ok" or d.error is not None:
+            pb = "unexpected rejection"
+        else:
+            out = str(r[1])
+            pb = oderiv.compare_with_output(d, read_smiles(out))
+            col.nontrivial(out)
+            col.sample({"tail": [str(head)] + [str(t) for t in toks[K + 1:]], "output": out})
+        if pb:
+            mdl = eng.current_model()
+            col.candidate({"prop": "C02", "kind": "deriv", "selfies": dech.concrete_selfies(mdl, toks), "table": None})
+
+    res = driver.explore_parallel(tail_path, 40)
+    rep.add_part("differential: 20-atom chain + ring/branch symbol + 0-2 index symbols at the end of the string (fewer than requested)", res,
+                 {"chain": 20, "head": ["[Ring2]", "[Ring3]", "[=Ring2]", "[Branch2]", "[Branch3]", "[Ring1]"], "index_symbols_present": "0..2, free over 17 symbols"})
+
     for tag, alpha, keys, n in plan:
         left = t_end - time.time()
         name = "differential %s N=%d: real decoder (read back by O-READ) vs O-DERIV, table free" % (tag, n)
